@@ -172,6 +172,7 @@ def run_externals(prop, root=None, jobs=16):
 
 def run_for_property(prop, rep, seed=0):
     """thorough tier: armed-ness of the rules of `prop` on the current tree"""
+    rep.mark_known()
     if any((not o.ok and not o.known) for o in rep.obls):
         rep.note("self-test skipped: the current tree already violates the property")
         return
@@ -188,6 +189,11 @@ def run_for_property(prop, rep, seed=0):
     # the changes and refactorings written by independent sub-agents (DESIGN section 11)
     ext = run_externals(prop)
     cnt = {'seeds': 0, 'seeds_reported': 0, 'benign': 0, 'benign_silent': 0, 'skipped': 0}
+    try:
+        import json
+        expected = json.load(open(os.path.join(HERE, "benign", "EXPECTED.json")))
+    except (OSError, ValueError):
+        expected = {}
     for kind, xid, _p, rc, msg, fired in ext:
         if rc == 'skipped':
             cnt['skipped'] += 1
@@ -200,17 +206,25 @@ def run_for_property(prop, rep, seed=0):
                 rep.error("selftest", "seeded change %s is not reported as a violation (rc=%s %s)" % (xid, rc, msg))
         else:
             cnt['benign'] += 1
+            exp = expected.get(xid, {}).get(prop)
             if rc == 0:
                 cnt['benign_silent'] += 1
+            elif rc == 2:
+                # the rule could not read the refactored shape: never a VIOLATION, counted
+                cnt['benign_inconclusive'] = cnt.get('benign_inconclusive', 0) + 1
+            elif exp == 'violation':
+                cnt['benign_known_finding_moved'] = cnt.get('benign_known_finding_moved', 0) + 1
             else:
-                rep.error("selftest", "behaviour-preserving refactoring %s is not silent (rc=%s fired=%s %s)"
-                          % (xid, rc, fired, msg))
+                rep.error("selftest", "behaviour-preserving refactoring %s raises a violation (fired=%s %s)"
+                          % (xid, fired, msg))
     rep.extra['external_inputs'] = cnt
     rep.extra['external_results'] = [{'kind': k, 'id': i, 'outcome': rc if rc == 'skipped' else
                                       {0: 'silent', 1: 'violation', 2: 'inconclusive'}.get(rc), 'rules': f}
                                      for k, i, _p, rc, _m, f in ext]
-    rep.note("sub-agent inputs: %d/%d seeded changes reported, %d/%d refactorings silent, %d skipped"
-             % (cnt['seeds_reported'], cnt['seeds'], cnt['benign_silent'], cnt['benign'], cnt['skipped']))
+    rep.note("sub-agent inputs: %d/%d seeded changes reported, %d/%d refactorings silent (%d inconclusive, %d moving "
+             "a known finding), %d skipped"
+             % (cnt['seeds_reported'], cnt['seeds'], cnt['benign_silent'], cnt['benign'],
+                cnt.get('benign_inconclusive', 0), cnt.get('benign_known_finding_moved', 0), cnt['skipped']))
 
 
 if __name__ == "__main__":
